@@ -8,6 +8,7 @@ trace is validated by PurityTrace.tla, which re-uses the Call step.  Long seeded
 way, so that every entry point is called repeatedly on shared data with other calls interleaved."""
 import contextlib
 import hashlib
+import random as _pyrandom
 import io
 import json
 import os
@@ -90,6 +91,7 @@ def make_pool(rng):
     P["COV32"] = np.tril(P["COV"]).astype("float32")
     P["SEPMIX"] = np.array([0.05, 0.6, 1.9, 2.4, 2.6, 7.0, 30.0, 100.0]) * (1.0 + 0.01 * rng.random(8))
     P["SEPMIX2"] = np.array([[0.06, 0.02], [1.2, 0.9], [2.4, 0.3], [2.6, 0.1], [9.0, 4.0], [40.0, 60.0]]) * (1.0 + 0.01 * rng.random((6, 2)))
+    P["CUBE4"] = rng.standard_normal((2, 3, n, n)) * 3.0 + 1.0          # (frames, sub-apertures, y, x) with negative (background-subtracted) pixels
     P["COVM"] = P["COV"] + 1e-3 * rng.standard_normal((12, 12))          # a measured covariance: symmetric only up to noise
     P["COEF"] = rng.standard_normal(6)
     P["JLIST"] = np.array([2, 5, 3])
@@ -177,6 +179,9 @@ def catalogue(ao):
     add("centroiders.centre_of_gravity", CE.centre_of_gravity, ["IMG"], lambda f, a: f(a[0], threshold=0.2))
     add("centroiders.centre_of_gravity[stack]", CE.centre_of_gravity, ["STACK"], lambda f, a: f(a[0], threshold=0.2),
         batch=dict(n=3, single=lambda f, a, i: f(a[0][i].copy(), threshold=0.2), item=lambda r, i: r[:, i]))
+    add("centroiders.brightest_pixel[rank-4]", CE.brightest_pixel, ["CUBE4"], lambda f, a: f(a[0], 0.3))
+    add("centroiders.centre_of_gravity[rank-4]", CE.centre_of_gravity, ["CUBE4"], lambda f, a: f(a[0], threshold=0.2))
+    add("centroiders.quadCell[rank-4]", CE.quadCell, ["CUBE4"], lambda f, a: f(a[0][..., :2, :2]))
     add("centroiders.centre_of_gravity[min_threshold]", CE.centre_of_gravity, ["STACK"], lambda f, a: f(a[0], threshold=0.1, min_threshold=2.0),
         batch=dict(n=3, single=lambda f, a, i: f(a[0][i].copy(), threshold=0.1, min_threshold=2.0), item=lambda r, i: r[:, i]))
     add("centroiders.correlation_centroid[stack]", CE.correlation_centroid, ["STACK", "IMG2"], lambda f, a: f(a[0], a[1], 0.1, 2),
@@ -487,6 +492,7 @@ class Recorder:
         args = [self.pools[src[k]][nm] for k, nm in enumerate(e["arrs"])]
         before = [arr_token(x) for x in args]
         gs0 = np.random.get_state()[1].tobytes()
+        py0 = _pyrandom.getstate()
         err = None
         try:
             with warnings.catch_warnings():
@@ -501,6 +507,8 @@ class Recorder:
         except Exception as ex:  # noqa
             res, err = ("raised", type(ex).__name__), repr(ex)[:160]
         after = [arr_token(x) for x in args]
+        if _pyrandom.getstate() != py0:
+            self.findings.append(("hidden-global-python-random:" + e["name"], dict(entry=e["name"])))
         if np.random.get_state()[1].tobytes() != gs0 and not e["exempt"]:
             self.findings.append(("hidden-global-rng:" + e["name"], dict(entry=e["name"])))
         ev = dict(op="call", f=fidx + 1, name=e["name"], args=[self.key_index(src[k], nm) for k, nm in enumerate(e["arrs"])],
@@ -724,6 +732,35 @@ def execute(entries, prog, rng, equal_pools=False):
     return rec
 
 
+def returned_arrays_stay_put(ao):
+    """arrays the library handed out are not written to by LATER library calls (the converse of Scribble): frames of a screen kept
+    across a few hundred add_row calls, results of stateless functions kept across repeated calls on other data"""
+    from aotools.turbulence import infinitephasescreen as ips
+    bad = []
+    for cls, kw in ((ips.PhaseScreenVonKarman, {}), (ips.PhaseScreenKolmogorov, dict(stencil_length_factor=2))):
+        obj = cls(6, 0.5, 0.2, 20.0, random_seed=8, **kw)
+        kept = []
+        for k in range(300):
+            fr = obj.add_row() if k % 3 else obj.scrn
+            if k % 3 == 0:
+                obj.add_row()
+            if k < 10 or k % 41 == 0:
+                kept.append((k, fr, np.array(fr, copy=True)))
+        changed = [k for k, a_, b_ in kept if not np.array_equal(np.asarray(a_), b_)]
+        if changed:
+            bad.append(("result-overwritten-by-a-later-call:%s.add_row" % cls.__name__, dict(frames_taken_at_steps=changed[:8])))
+    img = np.arange(64.0).reshape(8, 8) % 7 + 1
+    keep = []
+    for k in range(40):
+        for f in (lambda a: ao.ft2(a + 0j, 0.1), lambda a: ao.circle(2.0 + (k % 3), 8), lambda a: ao.interpolation.binImgs(a, 2), lambda a: ao.zernike_noll(4 + k % 2, 8)):
+            r_ = f(img * (k + 1))
+            if isinstance(r_, np.ndarray):
+                keep.append((r_, r_.copy()))
+    if any(not np.array_equal(a_, b_, equal_nan=True) for a_, b_ in keep):
+        bad.append(("result-overwritten-by-a-later-call:stateless-functions", {}))
+    return bad
+
+
 def run(run):
     ao = core.import_aotools()
     quick = run.tier == "quick"
@@ -799,6 +836,11 @@ def run(run):
         run.violation(key, dict(detail, trace=tid, position=l), dict(kind="program", program=prog, event=traces[tid - 1][l - 1]))
     for key, detail in findings:
         run.violation(key, detail, dict(kind="hidden", detail=detail))
+    with warnings.catch_warnings():
+        warnings.simplefilter("ignore")
+        with np.errstate(all="ignore"):
+            for key, detail in returned_arrays_stay_put(ao):
+                run.violation(key, detail, dict(kind="stayput"))
     run.traces += len(traces) - len(set(t for t, _ in rejected))
     for nm, why in raised.items():
         run.unrunnable.append(dict(entry=nm, raised=why))
@@ -831,6 +873,13 @@ def replay(run, case):
             run.violation(key + ":across-fresh-interpreters", detail, case)
         return
     names = {e["name"]: i for i, e in enumerate(entries)}
+    if case.get("kind") == "stayput":
+        with warnings.catch_warnings():
+            warnings.simplefilter("ignore")
+            with np.errstate(all="ignore"):
+                for key, detail in returned_arrays_stay_put(ao):
+                    run.violation(key, detail, case)
+        return
     if case.get("kind") != "program":
         return
     rng = np.random.default_rng(run.seed)
